@@ -77,6 +77,7 @@ type SchemaOpts struct {
 	NoDeps         bool
 	EmptyNames     bool // allow the empty string as a member name
 	NoComposition  bool
+	NoWide         bool // never produce long arrays / wide objects as instances
 	OnlyObjectRoot bool
 }
 
